@@ -171,6 +171,7 @@ def polars_schema(spec):
                     for c in fs.get("checks", [])],
             nullable=fs.get("nullable", False), unique=fs.get("unique", False),
             coerce=fs.get("coerce", False), required=fs.get("required", True),
+            regex=fs.get("regex", False),
         )
         if fs.get("default") is not None:
             kw["default"] = _pl_val(fs["dtype"], fs["default"])
